@@ -18,13 +18,13 @@ import (
 
 // Ctx is the state of one check run.
 type Ctx struct {
-	ID      string
-	Tier    string
-	Seed    int64
-	Start   time.Time
-	Known   []Finding
-	ev      Evidence
-	viol    []string // VIOLATION lines already printed
+	ID       string
+	Tier     string
+	Seed     int64
+	Start    time.Time
+	Known    []Finding
+	ev       Evidence
+	viol     []string // VIOLATION lines already printed
 	Observed map[string]bool
 }
 
@@ -85,7 +85,7 @@ func (c *Ctx) loadKnown() {
 	}
 	if err := json.Unmarshal(b, &all); err != nil {
 		fmt.Fprintln(os.Stderr, "known_findings.json unreadable:", err)
-		os.Exit(2)
+		exit(2)
 	}
 	for _, f := range all.Findings {
 		if f.Property == c.ID {
@@ -188,7 +188,7 @@ func (c *Ctx) Broken(format string, a ...any) {
 	fmt.Printf("CHECK-BROKEN property=%s %s\n", c.ID, fmt.Sprintf(format, a...))
 	c.ev.Coverage["broken"] = fmt.Sprintf(format, a...)
 	c.finish()
-	os.Exit(2)
+	exit(2)
 }
 
 func (c *Ctx) finish() {
@@ -227,10 +227,24 @@ func (c *Ctx) Done() {
 	}
 	c.finish()
 	if len(c.viol) > 0 {
-		os.Exit(1)
+		exit(1)
 	}
 	c.Infof("PASS")
-	os.Exit(0)
+	exit(0)
 }
 
 func oneLine(s string) string { return strings.Join(strings.Fields(s), " ") }
+
+// exit hooks: scratch directories are removed however a check ends (Done, Broken and the
+// toolchain paths end the process with os.Exit, which skips deferred calls)
+var exitHooks []func()
+
+// AtExit registers f to run before the process exits through this package.
+func AtExit(f func()) { exitHooks = append(exitHooks, f) }
+
+func exit(code int) {
+	for i := len(exitHooks) - 1; i >= 0; i-- {
+		exitHooks[i]()
+	}
+	os.Exit(code)
+}
